@@ -208,7 +208,7 @@ def _key(p):
 
 def execute_and_validate(ctx, exe, programs, tag, chunk_events=30000):
     byx = M.run_programs(ctx, exe, programs, tag)
-    res = M.validate(ctx, byx, ctx.known_devs(), checktime=False, tag=tag, parallel=4, chunk_events=chunk_events)
+    res = M.validate(ctx, byx, MY_DEVS, checktime=False, tag=tag, parallel=4, chunk_events=chunk_events)
     M.classify(ctx, res, programs, "C08 " + tag)
     for p in programs:
         ctx.evaluations += 1
@@ -235,7 +235,7 @@ def run(ctx):
     exe = build.harness("c06_sync", ["c06_sync.cc"], "asan")
     _t(ctx, "build")
     M.model_check(ctx, _ideal(thorough) + _asimpl(thorough), workers=4 if thorough else 3, parallel=3 if thorough else 2,
-                  timeout_s=1500 if thorough else 400)
+                  timeout_s=2400 if thorough else 900)
     _t(ctx, "model checking")
     behs = generate(ctx)
     _t(ctx, "behaviour generation")
@@ -276,6 +276,6 @@ def replay(ctx, path):
         raise Broken("replay file has no program")
     exe = build.harness("c06_sync", ["c06_sync.cc"], "asan")
     byx = M.run_programs(ctx, exe, [prog], "replay")
-    res = M.validate(ctx, byx, ctx.known_devs(), checktime=False, tag="replay", parallel=1)
+    res = M.validate(ctx, byx, MY_DEVS, checktime=False, tag="replay", parallel=1)
     M.classify(ctx, res, [prog], "C08 replay")
     ctx.sample({"kind": "replayed history", "ops": prog["ops"][:12]})
